@@ -30,7 +30,7 @@ def ddmin(items, test):
     return items
 
 
-APPENDING = {"leaf", "calc", "proj", "sel", "dedup", "sort", "slice", "chain", "join", "mat", "xfer", "process", "mark",
+APPENDING = {"leaf", "calc", "proj", "sel", "dedup", "sort", "slice", "chain", "join", "mat", "xfer", "process", "mark", "custom", "twin",
              }
 REFS = ("t", "l", "r")
 
